@@ -543,12 +543,18 @@ func runC15(c *mon.Ctx) {
 		case *extprof.ExtP2Claims:
 			if withExt {
 				ts := int64(g.R.Intn(1 << 40))
+				if g.R.Intn(4) == 0 {
+					ts = 0 // present-but-zero is not absent
+				}
 				t.Timestamp = &ts
 				extKey, extNode, extName, extJSON = -75100, refcbor.I(ts), "timestamp", fmt.Sprint(ts)
 			}
 		case *extprof.ExtP1Claims:
 			if withExt {
 				s := g.NonEmptyText()
+				if g.R.Intn(4) == 0 {
+					s = "" // present-but-empty is not absent
+				}
 				t.Extra = &s
 				jb, _ := json.Marshal(s)
 				extKey, extNode, extName, extJSON = -75200, refcbor.Tstr(s), "x-extra", string(jb)
